@@ -86,7 +86,7 @@ class FileBasedCollectionMetadata(CollectionMetadata):
         if url is not None:
             self._configparser["DEFAULT"]["source"] = url
         else:
-            del self._configparser["DEFAULT"]["source"]
+            self._configparser.remove_option("DEFAULT", "source")
         self._save("Set source URL.")
 
     def get_color(self):
@@ -105,28 +105,28 @@ class FileBasedCollectionMetadata(CollectionMetadata):
         if color is not None:
             self._configparser["DEFAULT"]["color"] = color
         else:
-            del self._configparser["DEFAULT"]["color"]
+            self._configparser.remove_option("DEFAULT", "color")
         self._save("Set color.")
 
     def set_displayname(self, displayname):
         if displayname is not None:
             self._configparser["DEFAULT"]["displayname"] = displayname
         else:
-            del self._configparser["DEFAULT"]["displayname"]
+            self._configparser.remove_option("DEFAULT", "displayname")
         self._save("Set display name.")
 
     def set_description(self, description):
         if description is not None:
             self._configparser["DEFAULT"]["description"] = description
         else:
-            del self._configparser["DEFAULT"]["description"]
+            self._configparser.remove_option("DEFAULT", "description")
         self._save("Set description.")
 
     def set_comment(self, comment):
         if comment is not None:
             self._configparser["DEFAULT"]["comment"] = comment
         else:
-            del self._configparser["DEFAULT"]["comment"]
+            self._configparser.remove_option("DEFAULT", "comment")
         self._save("Set comment.")
 
     def set_type(self, store_type):
@@ -145,7 +145,7 @@ class FileBasedCollectionMetadata(CollectionMetadata):
         except configparser.DuplicateSectionError:
             pass
         if order is None:
-            del self._configparser["calendar"]["order"]
+            self._configparser.remove_option("calendar", "order")
         else:
             self._configparser["calendar"]["order"] = order
         self._save("Set calendar order.")
